@@ -2,7 +2,7 @@
    freshness are exercised against the Rust on every run (fault campaign), completeness is proved. *)
 From Coq Require Import ZArith NArith List.
 Import ListNotations.
-From StarV Require Import Params Bytes Strobe Ggm Ppoprf PpFacts.
+From StarV Require Import Params Bytes Strobe Ggm Ppoprf EllPrime PpFacts.
 Open Scope Z_scope.
 
 (* any batch, any key, any nonce, any hash (any F): the proof produced for Q_i = key * P_i under the public
@@ -24,6 +24,18 @@ Theorem C13_special_soundness : forall (G : grp), GrpLaws G -> forall (k : Z) (m
   (d * (c' - c)) mod ell = 1 ->
   z = g_mul G k m.
 Proof. exact dleq_special_soundness. Qed.
+(* with ell prime, any two DIFFERENT challenges do *)
+Theorem C13_special_soundness_prime : forall (G : grp), GrpLaws G -> forall (k : Z) (m z : bytes) (c s c' s' : Z),
+  g_valid G m = true -> g_valid G z = true -> g_base G <> g_id G ->
+  g_add G (g_mul G s (g_base G)) (g_mul G c (g_mul G k (g_base G)))
+    = g_add G (g_mul G s' (g_base G)) (g_mul G c' (g_mul G k (g_base G))) ->
+  g_add G (g_mul G s m) (g_mul G c z) = g_add G (g_mul G s' m) (g_mul G c' z) ->
+  (c' - c) mod ell <> 0 ->
+  z = g_mul G k m.
+Proof.
+  intros G L k m z c s c' s' Hm Hz HB E1 E2 Hc.
+  exact (dleq_special_soundness G L k m z c s c' s' (sc_inv (c' - c)) Hm Hz HB E1 E2 (sc_inv_spec (c' - c) Hc)).
+Qed.
 
 (* the proof survives its binary form *)
 Theorem C13_proof_roundtrip : forall p : proof, 0 <= pr_c p < ell -> 0 <= pr_s p < ell ->
